@@ -1,5 +1,5 @@
 """harness = one contract instance (a real function + configuration + requires/ensures + native replay)."""
-import time, json, math, os, traceback, random
+import time, json, math, os, sys, traceback, random
 from fractions import Fraction
 import numpy as np
 import torch, z3
@@ -256,7 +256,14 @@ def run_harness(h, budget_s=20.0, seed=0, native_tries=300):
                     g_ = d.get("goal")
                     try:
                         trivially_false = g_ is not None and z3.is_false(z3.simplify(g_))
-                        fail["sat_untrusted"] = bool((not trivially_false) and T.has_uf(list(ob.hyps) + [ob.goal]))
+                        fail["sat_untrusted"] = bool((not trivially_false) and T.has_abstracted_function(list(d.get("assertions") or ob.hyps) + [g_]))
+                        if fail["sat_untrusted"] and d.get("model") is not None:
+                            # the model is re-evaluated with the real exp / log / ... in place of their abstractions
+                            from . import realcheck
+                            okc, why = realcheck.confirm(d["model"], list(d.get("assertions") or ob.hyps), g_)
+                            fail["real_evaluation"] = why
+                            if os.environ.get("TSV_DEBUG"): print("real-evaluation:", ob.name, okc, why, file=sys.stderr)
+                            if okc: fail["sat_untrusted"] = False
                     except Exception:
                         fail["sat_untrusted"] = False
                 fail["solver_output"] = str(d["model"])[:1500] if d.get("model") is not None else d["status"]
